@@ -35,23 +35,20 @@ def stepSpans (inp obs : List String) : Option Verdict := do
   | none => pure (failV "observed-payload-not-representable")
   | some o =>
     let agree := o.isPerm model
-    let f32 := F32_applies batch
-    let f16 := F16_applies batch
     let groups := spanGroupsOK batch o
-    -- strict first; then exactly one finding's deviation; both only when both apply (F32 reported first)
-    let spec :=
-      if spansRecovered false false batch o && groups then "ok"
-      else if f32 && spansRecovered false true batch o && groups then "KNOWN:F32"
-      else if f16 && spansRecovered true false batch o && groups then "KNOWN:F16"
-      else if f32 && f16 && spansRecovered true true batch o && groups then "KNOWN:F32"
-      else "FAIL"
+    -- no known finding is left for traces (F16, F32 repaired): anything but the strict round trip is a FAIL
+    let spec := if spansRecovered batch o && groups then "ok" else "FAIL"
+    let resKeys := (ss.map fun s => (resKey s.resource, resSchema s.resource)).eraseDups
+    let sameAttrsOtherSchema := resKeys.any fun a => resKeys.any fun b => a.1 == b.1 && a.2 != b.2
+    let nilAndEmpty := ss.any (·.resource.isNone) && ss.any (fun s => s.resource == some ⟨[], []⟩)
+    let linkTS := ss.any fun s => s.links.any fun l => l.sc.traceState != []
     let allKvs := ss.flatMap fun s => s.attrs ++ s.events.flatMap (·.attrs) ++ s.links.flatMap (·.attrs)
     let br :=
       tagIf (batch.any (·.isNone)) "nil-span" ++ tagIf (ss.any (·.resource.isNone)) "nil-resource" ++
       tagIf (ss.any (·.scope.isZero)) "zero-scope" ++ tagIf (model.length > 1) "multi-resource" ++
       tagIf (model.any (·.scopeSpans.length > 1)) "multi-scope" ++
       tagIf (model.any (·.scopeSpans.any (·.spans.length > 1))) "multi-span-group" ++
-      tagIf f32 "f32" ++ tagIf f16 "f16" ++
+      tagIf sameAttrsOtherSchema "same-attrs-other-schema" ++ tagIf nilAndEmpty "nil-and-empty-resource" ++ tagIf linkTS "link-tracestate" ++
       tagIf (ss.any fun s => s.start < 0 || s.stop < 0) "time-neg" ++
       tagIf (ss.any fun s => s.droppedAttrs < 0 || s.droppedEvents < 0 || s.droppedLinks < 0) "clamp-neg" ++
       tagIf (ss.any fun s => s.droppedAttrs > 4294967295 || s.droppedEvents > 4294967295 || s.droppedLinks > 4294967295) "clamp-hi" ++
@@ -87,22 +84,22 @@ def stepLogs (inp obs : List String) : Option Verdict := do
   | none => pure (failV "observed-payload-not-representable")
   | some o =>
     let agree := o.isPerm model
-    let f32 := F32_appliesLogs rs
     let f33 := F33_applies rs
     let groups := logGroupsOK rs o
+    -- strict first; KNOWN:F33 only when the sole deviation is the empty value arriving as "INVALID"
     let spec :=
-      if logsRecovered false false rs o && groups then "ok"
-      else if f32 && logsRecovered true false rs o && groups then "KNOWN:F32"
-      else if f33 && logsRecovered false true rs o && groups then "KNOWN:F33"
-      else if f32 && f33 && logsRecovered true true rs o && groups then "KNOWN:F32"
+      if logsRecovered false rs o && groups then "ok"
+      else if f33 && logsRecovered true rs o && groups then "KNOWN:F33"
       else "FAIL"
+    let resKeys := (rs.map (·.resource)).eraseDups
+    let sameAttrsOtherSchema := resKeys.any fun a => resKeys.any fun b => a.attrs == b.attrs && a.schemaUrl != b.schemaUrl
     let depth := rs.foldl (fun d r => max d (max (lvalDepth r.body) (lkvsDepth r.attrs + 1))) 0
     let br :=
       tagIf (rs.any (·.resource.attrs.isEmpty)) "no-resource-msg" ++
       tagIf (rs.any (·.scope.isZero)) "zero-scope" ++ tagIf (model.length > 1) "multi-resource" ++
       tagIf (model.any (·.scopeLogs.length > 1)) "multi-scope" ++
       tagIf (model.any (·.scopeLogs.any (·.records.length > 1))) "multi-record-group" ++
-      tagIf f32 "f32" ++ tagIf f33 "f33" ++
+      tagIf sameAttrsOtherSchema "same-attrs-other-schema" ++ tagIf f33 "f33" ++
       tagIf (rs.any fun r => r.time < 0 || r.observed < 0) "time-neg" ++
       tagIf (rs.any fun r => r.dropped > 0) "dropped" ++
       tagIf (rs.any fun r => r.dropped > 4294967295) "dropped-clamp" ++
@@ -187,7 +184,7 @@ def stepSens (field : String) (obs : List String) : Option Verdict :=
   match obs with
   | [r] =>
     if r != "changed" && r != "same" then none else
-    let known := if field == "trace.link-tracestate" then some "F16" else none
+    let known : Option String := none   -- F16 (trace.link-tracestate) is repaired: it must now be `changed`
     let notCarried := ["trace.span-flags", "trace.link-flags", "trace.child-count"].contains field
     let expected := if known.isSome || notCarried then "same" else "changed"
     let spec := if r == "changed" then "ok" else match known with
